@@ -1,11 +1,17 @@
 #!/bin/bash
-# benignall.sh [glob]: every stored property-preserving change against ALL quick checks. Exit 0 iff every check stays quiet.
+# benignall.sh [glob]: every stored property-preserving change against the quick checks.
+# A change is preserving for the property its author was given; benign/<name>.skip lists
+# checks of OTHER properties it is not preserving for (with the reason), which are not run.
+# Exit 0 iff every check that is run stays quiet.
 cd "$(dirname "$0")"
 export VERIF_WATCHDOG_SECS="${VERIF_WATCHDOG_SECS:-60}"
+all=(C01 C03 C04 C05 C06 C07 C08 C09 C10 C11 C12 C13 C18 C19)
 rc=0
 for d in benign/${1:-*}.diff; do
   echo "== $d"
-  ./benigntest.sh "$(pwd)/$d" || rc=1
+  skip=""; [ -f "${d%.diff}.skip" ] && skip=$(grep -v '^#' "${d%.diff}.skip" | awk '{print $1}' | tr '\n' ' ')
+  ids=(); for id in "${all[@]}"; do case " $skip " in *" $id "*) echo "$id: skipped (see ${d%.diff}.skip)";; *) ids+=("$id");; esac; done
+  ./benigntest.sh "$(pwd)/$d" "${ids[@]}" || rc=1
 done
 if [ -n "$(git -C /repo status --porcelain -- src)" ]; then echo "WARNING: /repo/src is dirty"; rc=2; fi
 exit $rc
